@@ -173,6 +173,26 @@ func (fs *FS) rename(oldname, newname string) error {
 		return hackpadfs.Rename(oldMount, oldSubPath, newSubPath)
 	}
 
+	// checks are made in the order the os package reports them
+	if newInfo, err := hackpadfs.Stat(newMount, newSubPath); err == nil && newInfo.IsDir() {
+		// like os.Rename, never replace a directory
+		if _, err := hackpadfs.Stat(oldMount, oldSubPath); err != nil {
+			return err
+		}
+		return hackpadfs.ErrExist
+	}
+	for _, parent := range []struct {
+		fs   hackpadfs.FS
+		path string
+	}{{oldMount, path.Dir(oldSubPath)}, {newMount, path.Dir(newSubPath)}} {
+		info, err := hackpadfs.Stat(parent.fs, parent.path)
+		if err != nil {
+			return err
+		}
+		if !info.IsDir() {
+			return hackpadfs.ErrNotDir
+		}
+	}
 	oldInfo, err := hackpadfs.Stat(oldMount, oldSubPath)
 	if err != nil {
 		return err
